@@ -292,6 +292,19 @@ func genRewriteStage(r *vk.RNG, d *Dataset, allowFail, first bool) Stage {
 		}
 		return stRename(pairs)
 	case 1:
+		if r.Chance(1, 4) {
+			// renames and a template in one stage, the renames written first: the template reads the
+			// labels as the renames left them (source gone, destination set)
+			perm := r.Perm(len(c07Labels))
+			src, dst := c07Labels[perm[0]], c07Labels[perm[1]]
+			pairs := [][2]string{{dst, src}}
+			if r.Bool() {
+				pairs = append(pairs, [2]string{"fresh", c07Labels[perm[2]]})
+			}
+			l := vk.Pick(r, []string{src, dst, dst, "fresh"})
+			t := Tmpl{Text: "<{{ ." + l + " }}|{{ ." + src + " }}>", Eval: func(e *Ent) (string, bool) { return "<" + e.L[l] + "|" + e.L[src] + ">", true }}
+			return stRenameThenTemplate(pairs, "out", t)
+		}
 		if r.Chance(1, 3) {
 			// several templates in one stage, any of them may be the failing one
 			k := r.Range(2, 3)
@@ -446,6 +459,7 @@ func runC07(r *vk.Run) {
 	})
 	r.Require("stage:label_format-rename", 300)
 	r.Require("stage:label_format-template", 300)
+	r.Require("stage:label_format-mixed", 50)
 	r.Require("stage:line_format", 500)
 	r.Require("stage:drop", 300)
 	r.Require("stage:keep", 300)
